@@ -84,7 +84,7 @@ theorem layout_pinned : ∀ q ∈ RstLayout.pinned, ∀ nv ∈ q.2, (enumOf q.1)
 /-- Generated tables: every (writer entry, reader entry) pair that meets on one array element — same
 array, same *index* — with both shapes recognised is in a compatible class (same measure, inverse
 offset, matching Boolean / enum coding, same summary key), for RstWell / RstConnection and for
-LoadRestart.cpp; the only exceptions are the three declared ones, which are real disagreements. -/
+LoadRestart.cpp; the only exception is the declared one (wtest_remaining), which is a real disagreement. -/
 theorem field_tables_agree :
     (∀ p ∈ pairs writer reader,
       (pairCls p ≠ .mismatch ∧ (declaredExceptions.lookup p.2.field).isNone) ∨
